@@ -65,6 +65,17 @@ func checkFileOrder(p *Program, r *Result) {
 		}
 		return false
 	}
+	onQueue := func(v ssa.Value) bool {
+		if mi, ok := v.(*ssa.MakeInterface); ok {
+			v = mi.X
+		}
+		for _, o := range oc.origins(v) {
+			if o == p.roles().queueOrigin() {
+				return true
+			}
+		}
+		return false
+	}
 	nChunkSort, nQueueSort := 0, 0
 	fileOrderChunkSort := false
 	for _, m := range methodsOf(p, pkgMcap, "indexedMessageIterator") {
@@ -105,7 +116,7 @@ func checkFileOrder(p *Program, r *Result) {
 				}
 			}
 			switch {
-			case onField(args[0], "messageIndexes"):
+			case onQueue(args[0]):
 				nQueueSort++
 				construct := fmt.Sprintf("reordering of the message queue: %s", trimPkg(staticCalleeName(ci.Common())))
 				if poss[0] {
